@@ -60,9 +60,15 @@ inductive IrT where
   | pointer
   deriving DecidableEq, Repr, Inhabited
 
+/-- `self.layout_of(ty).is_some_and(|l| l.size() == 0)` -/
+def sizeZero (t : Ty) : Bool :=
+  match layoutOf t with
+  | some l => l.get_size == 0
+  | none => false
+
 /-- `Lowerer::lower_type` (lower.rs). `panic` = the final `ice!`. -/
 def lowerType (t : Ty) : Res (Option IrT) :=
-  if (match layoutOf t with | some l => l.get_size == 0 | none => false) then .ok none
+  if sizeZero t then .ok none
   else match t with
     | .leaf .int s _ => .ok (some (.int s))
     | .leaf .float s _ => .ok (some (.float s))
